@@ -170,8 +170,80 @@ func (in *Interp) ropeEq(a, b Str) *Term {
 	if ca, ok := a.Concrete(); ok && a.rope == nil {
 		return in.ropeMatch(pb, ca)
 	}
-	in.unsupported("comparison of differently structured symbolic formatted strings")
-	return nil
+	return in.ropeAlign(pa, pb)
+}
+
+// ropeAlign compares two piece lists by walking them in step: literals and symbolic
+// bytes are consumed byte by byte, a decimal must face the SAME decimal term (then
+// both have the same text). Anything else cannot be aligned and is not decided.
+func (in *Interp) ropeAlign(pa, pb []piece) *Term {
+	tt := in.tt
+	type cur struct {
+		ps  []piece
+		i   int
+		off int
+	}
+	x, y := &cur{ps: pa}, &cur{ps: pb}
+	norm := func(c *cur) {
+		for c.i < len(c.ps) {
+			p := c.ps[c.i]
+			if (p.kind == 0 && c.off >= len(p.lit)) || (p.kind == 1 && c.off >= len(p.bytes)) {
+				c.i++
+				c.off = 0
+				continue
+			}
+			break
+		}
+	}
+	byteAt := func(c *cur) *Term {
+		p := c.ps[c.i]
+		if p.kind == 0 {
+			return tt.Const(8, uint64(p.lit[c.off]))
+		}
+		return p.bytes[c.off]
+	}
+	r := tt.True
+	for {
+		norm(x)
+		norm(y)
+		if x.i >= len(x.ps) || y.i >= len(y.ps) {
+			if x.i >= len(x.ps) && y.i >= len(y.ps) {
+				return r
+			}
+			// leftover: unequal unless the rest can be empty (it cannot: pieces are non-empty)
+			rest := x
+			if x.i >= len(x.ps) {
+				rest = y
+			}
+			for k := rest.i; k < len(rest.ps); k++ {
+				if rest.ps[k].kind >= 2 || len(rest.ps[k].lit)+len(rest.ps[k].bytes) > 0 {
+					return tt.False
+				}
+			}
+			return r
+		}
+		px, py := x.ps[x.i], y.ps[y.i]
+		if px.kind <= 1 && py.kind <= 1 {
+			r = tt.And(r, tt.Eq(byteAt(x), byteAt(y)))
+			if r == tt.False {
+				return r
+			}
+			x.off++
+			y.off++
+			continue
+		}
+		if px.kind == 2 && py.kind == 2 && px.dec == py.dec && px.pad == py.pad && px.sign == py.sign && x.off == 0 && y.off == 0 {
+			x.i++
+			y.i++
+			continue
+		}
+		if px.kind == 3 && py.kind == 3 && px.flt == py.flt {
+			x.i++
+			y.i++
+			continue
+		}
+		in.unsupported("comparison of differently structured symbolic formatted strings")
+	}
 }
 
 func (in *Interp) ropeMatch(ps []piece, s string) *Term {
